@@ -16,16 +16,51 @@ package cppki
 
 import (
 	"crypto/x509/pkix"
+	"encoding/asn1"
 	"reflect"
 )
 
 func equalName(name, other pkix.Name) bool {
-	rdn1, rdn2 := name.ToRDNSequence(), other.ToRDNSequence()
+	rdn1, rdn2 := toRDNSequence(name), toRDNSequence(other)
 	// quick check: if the strings don't match, they can't be equal.
 	if rdn1.String() != rdn2.String() {
 		return false
 	}
 	return equalRDNSequence(rdn1, rdn2)
+}
+
+// fieldOIDs are the attribute types that pkix.Name represents with a dedicated
+// field, and that are thus part of the result of pkix.Name.ToRDNSequence.
+var fieldOIDs = []asn1.ObjectIdentifier{
+	{2, 5, 4, 6},  // country
+	{2, 5, 4, 10}, // organization
+	{2, 5, 4, 11}, // organizational unit
+	{2, 5, 4, 7},  // locality
+	{2, 5, 4, 8},  // province
+	{2, 5, 4, 9},  // street address
+	{2, 5, 4, 17}, // postal code
+	{2, 5, 4, 3},  // common name
+	{2, 5, 4, 5},  // serial number
+}
+
+// toRDNSequence converts the name to an RDN sequence that contains all of its
+// attributes. When a name is parsed from a certificate, crypto/x509 records the
+// attributes that do not have a dedicated field (e.g., the ISD-AS number) in
+// Names only, and pkix.Name.ToRDNSequence silently drops them. They are appended
+// here, such that two distinguished names that only differ in the ISD-AS number
+// are not considered equal.
+func toRDNSequence(name pkix.Name) pkix.RDNSequence {
+	seq := name.ToRDNSequence()
+	if len(name.ExtraNames) != 0 {
+		// The name was prepared for marshaling, the extra names are part of seq.
+		return seq
+	}
+	for _, atv := range name.Names {
+		if !containsOID(fieldOIDs, atv.Type) {
+			seq = append(seq, pkix.RelativeDistinguishedNameSET{atv})
+		}
+	}
+	return seq
 }
 
 func equalRDNSequence(rdn1, rdn2 pkix.RDNSequence) bool {
